@@ -72,7 +72,8 @@ def recipe(r, d, maxd):
         keys = r.sample(['a', 'b', 'c', 'k1', '', 'time', '_x', '!units[k]'], r.randint(0, 3))
         return {'t': 'dict', 'v': [[key, recipe(r, d + 1, maxd)] for key in keys]}
     if k < 0.44:
-        return {'t': 'set', 'v': sorted({r.randint(0, 5) for _ in range(r.randint(0, 3))})}
+        # (c: plain set or one of two subclasses of it - found by the serializers' subclass search)
+        return {'t': 'set', 'v': sorted({r.randint(0, 5) for _ in range(r.randint(0, 3))}), 'c': r.choice([0, 0, 1, 2])}
     if k < 0.52:
         return {'t': 'i', 'x': r.choice([0, 1, -1, 2 ** 53, -2 ** 53, 2 ** 62, r.randint(-10 ** 6, 10 ** 6)])}
     if k < 0.60:
@@ -82,7 +83,8 @@ def recipe(r, d, maxd):
     if k < 0.70:
         return {'t': 'c', 'x': r.choice([None, True, False])}
     if k < 0.76:
-        return {'t': 'np', 'k': r.choice(['int64', 'float64', 'arange', 'ones22', 'bool', 'strarr', 'float32', 'empty']),
+        return {'t': 'np', 'k': r.choice(['int64', 'float64', 'arange', 'ones22', 'bool', 'strarr', 'float32', 'empty',
+                                          'subA', 'subB', 'masked']),
                 'x': r.randint(-10, 10)}
     if k < 0.93:
         m = r.choice(['f', 'f', 'i', 'nan', 'inf', '-inf', 'z', 'neg', 'arr'])
@@ -127,6 +129,28 @@ class _Unsupported:
     pass
 
 
+class _SetA(set):
+    pass
+
+
+class _SetB(set):
+    pass
+
+
+_ARR = []
+
+
+def _arr_classes(np):
+    if not _ARR:
+        class ArrA(np.ndarray):
+            pass
+
+        class ArrB(np.ndarray):
+            pass
+        _ARR.extend([ArrA, ArrB])
+    return _ARR
+
+
 def build(rc, env):
     units, np = env['units'], env['np']
     t = rc['t']
@@ -137,7 +161,7 @@ def build(rc, env):
     if t == 'dict':
         return {k: build(v, env) for k, v in rc['v']}
     if t == 'set':
-        return set(rc['v'])
+        return [set, _SetA, _SetB][rc.get('c', 0)](rc['v'])
     if t in ('i', 's', 'c', 'f'):
         return rc['x']
     if t == 'fb':
@@ -147,7 +171,10 @@ def build(rc, env):
         return {'int64': lambda: np.int64(x), 'float64': lambda: np.float64(x / 4), 'float32': lambda: np.float32(x / 4),
                 'arange': lambda: np.arange(abs(x) % 4), 'ones22': lambda: np.ones((2, 2)) * x,
                 'bool': lambda: np.bool_(x > 0), 'strarr': lambda: np.array(['x', 'y']),
-                'empty': lambda: np.array([])}[k]()
+                'empty': lambda: np.array([]),
+                'subA': lambda: np.arange(abs(x) % 4).view(_arr_classes(np)[0]),
+                'subB': lambda: (np.ones((2, 2)) * x).view(_arr_classes(np)[1]),
+                'masked': lambda: np.ma.masked_array(np.arange(abs(x) % 4))}[k]()
     if t in ('q', 'u'):
         u = None
         for name, power in rc['u']:
